@@ -185,9 +185,24 @@ def first_text_diff(a, b):
     return f'{len(la)} lines -> {len(lb)} lines: {(la[len(lb):] or lb[len(la):])[:2]}'
 
 
+K_LOWER_INIT = 'C40:not-idempotent:convert_to_lower_case:name-only-in-parameter-initialiser'
+
+
+def lower_case_initialiser_trigger(case):
+    """listed finding: convert_to_lower_case leaves a name that occurs only in the initialisation expression of a PARAMETER
+    in upper case on the first application and converts it on the second"""
+    return (case['T']['name'] == 'convert_to_lower_case' and 'mixed-case-identifiers' in (case.get('deco') or [])
+            and 'parameter-used-only-in-parameter-initialisation' in (case.get('feats') or []))
+
+
 def check_case(case, ctx):
     T = case['T']
     name = T['name']
+    listed_trigger = lower_case_initialiser_trigger(case)
+    if listed_trigger and K_LOWER_INIT in ctx.known_sigs and not case.get('listed_replay'):
+        # excluded by construction: the trigger lives on only in the committed replay
+        ctx.exclude('convert_to_lower_case on a program with a mixed-case name used only in a PARAMETER initialiser (known finding)')
+        return
     rendered = harness.render_case(case)
     try:
         sfs = parse_rendered(rendered)
@@ -204,7 +219,8 @@ def check_case(case, ctx):
     cl = [name, f'{name}:{"changes-x" if changed else "leaves-x-unchanged"}', f'base:{case.get("base")}'] + list(case.get('deco') or [])
     if t1 != t2:
         i = next(k for k in range(len(t1)) if t1[k] != t2[k])
-        ctx.fail(f'C40:not-idempotent:{name}:text:no-known-hazard', case, f'{T}: {first_text_diff(t1[i], t2[i])}')
+        ctx.fail(K_LOWER_INIT if listed_trigger else f'C40:not-idempotent:{name}:text:no-known-hazard', case,
+                 f'{T}: {first_text_diff(t1[i], t2[i])}')
         cl.append(f'{name}:not-idempotent')
     elif d1 != d2:
         i = next(k for k in range(len(d1)) if d1[k] != d2[k])
@@ -217,7 +233,8 @@ def check_case(case, ctx):
 
 def ablations(case):
     mod = {'assoc': GA, 'arrays': GR, 'constprop': GC}.get(case.get('base'), GA)
-    return mod.ablations(case)
+    fn = getattr(mod, 'ablations', None)     # (not every generator module offers feature ablations)
+    return fn(case) if fn else []
 
 
 def run_shard(ctx):
